@@ -411,3 +411,52 @@ func init() {
 	generators["progtrim"] = genProg("progtrim", true, false)
 	generators["prognoerr"] = genProg("prognoerr", false, true)
 }
+
+// dropTrims returns the tree without its whitespace-control markers.
+func dropTrims(nodes []any) []any {
+	out := []any{}
+	for _, x := range nodes {
+		n := jobj(x)
+		switch jstr(n, "t") {
+		case "trimL", "trimR":
+			continue
+		}
+		m := J{}
+		for k, v := range n {
+			m[k] = v
+		}
+		for _, f := range []string{"body", "else", "pre"} {
+			if b, ok := m[f].([]any); ok {
+				m[f] = dropTrims(b)
+			}
+		}
+		for _, f := range []string{"branches", "whens"} {
+			if bs, ok := m[f].([]any); ok {
+				nb := make([]any, len(bs))
+				for i, bx := range bs {
+					b := J{}
+					for k, v := range jobj(bx) {
+						b[k] = v
+					}
+					if body, ok := b["body"].([]any); ok {
+						b["body"] = dropTrims(body)
+					}
+					nb[i] = b
+				}
+				m[f] = nb
+			}
+		}
+		out = append(out, m)
+	}
+	return out
+}
+
+func init() {
+	base := genProg("progtrim", true, true)
+	generators["progtrim"] = func(r *rand.Rand, i int) J {
+		c := base(r, i)
+		c["prog0"] = dropTrims(jarr(c, "prog"))
+		delete(c, "strict")
+		return c
+	}
+}
